@@ -2,9 +2,9 @@ import PyaModel.Proofs.C11
 /-!
 # Props/C11 — suppression and enabling are a pure projection of the diagnostics
 
-Property theorems only.  Model: `Emit.showError` / `Emit.run` / `Emit.check` (Core/Emit.lean, follows
+Property theorems only.  Model: `C11.showError` / `C11.run` / `C11.check` (Core/Emit.lean, follows
 `BaseNodeVisitor.show_error`, `has_file_level_ignore`, the unused/bare-ignore passes and the tail of
-`NameCheckVisitor.check` branch by branch).  Spec: `Emit.specFails` / `Emit.specCheck`
+`NameCheckVisitor.check` branch by branch).  Spec: `C11.specFails` / `C11.specCheck`
 (Spec/Suppress.lean, filters over the raw stream).
 
 Everything is stated for **all** files (`lines : List Line`, any text), **all** raw streams
@@ -17,10 +17,9 @@ Scope predicates used as hypotheses (all decidable `Bool`s, Spec/Suppress.lean):
 `RawWF` (positioned obeying calls point into the file), `RawAst` (the visitor's calls use no
 `_FakeNode`), `NoIgnore` (the base file has no ignore comment), `plainCode` (the line a trailing comment is
 appended to has no `#` and is not blank), `Sel.ok` (the code name has no `#` / `]`).
-Exception class: `D11_lineOneWrap` (node_visitor.py:662).
+Exception classes: `D11_lineOneWrap` (node_visitor.py:662), `D11_splitlinesMismatch` (node_visitor.py:236).
 -/
-namespace Pya
-open Emit
+namespace Pya.C11
 
 /-! ## Disabling codes -/
 
@@ -128,6 +127,34 @@ theorem lineOneWrap_witness : ¬ check_eq_spec_full := by
 
 example : D11_lineOneWrap allOn wrapLines wrapRaw = true := by decide
 
+/-! ## The lines `show_error` looks at are the lines the diagnostics are numbered by -/
+
+/-- Full statement: `_lines()` (`str.splitlines()`) yields the physical lines of the tokenizer. -/
+def lines_agree_full : Prop := ∀ src : List Char, pyLines src = tokLines src
+
+/-- **lines_agree, partial**: true of every source text without a character that only
+`splitlines()` treats as a line boundary. -/
+theorem lines_agree_partial (src : List Char) (h : D11_splitlinesMismatch src = false) :
+    pyLines src = tokLines src :=
+  pyLines_eq_tokLines src h
+
+/-- **Exception class `splitlinesMismatch`**: a form feed splits a line for `splitlines()` only. -/
+theorem splitlinesMismatch_witness : ¬ lines_agree_full := by
+  intro h
+  have := h "a\x0cb".toList
+  revert this
+  decide
+
+/-- **From source text to failures, partial (both classes excluded).** The check run on the lines
+pyanalyze extracts from the source produces what the spec prescribes for the tokenizer's lines. -/
+theorem check_source_eq_spec_partial (en : String → Bool) (src : List Char) (raw : List Raw)
+    (hs : D11_splitlinesMismatch src = false)
+    (hwf : RawWF (tokLines src) raw = true) (hast : RawAst raw = true)
+    (hD : D11_lineOneWrap en (tokLines src) raw = false) :
+    ∃ st, check en (pyLines src) raw = some st ∧ st.fails = specCheck en (tokLines src) raw := by
+  rw [pyLines_eq_tokLines src hs]
+  exact check_eq_spec en (tokLines src) raw hwf hast hD
+
 /-! ## One comment added to a file without ignore comments -/
 
 /-- **trailing_ignore_exact (full strength on its fragment).** Appending `  # static analysis: ignore`
@@ -207,6 +234,30 @@ theorem unused_iff_suppressed_nothing_partial (en : String → Bool) (lines : Li
       ∀ r ∈ nub (raw.filter (counted en)), credited lines r ≠ some p.1 :=
   unused_pointwise en lines raw st hrun hwf hD p hp
 
+/-- **unused_iff_suppressed_nothing for non-overlapping comments, partial.** When no diagnostic is
+covered by two comment lines (`UniqueCover`; e.g. one comment added to a clean file), "credited
+with" is simply "would suppress": the comment on line `p.1 + 1` is reported as unused exactly when it
+covers none of the counted diagnostics. -/
+theorem unused_iff_covers_nothing_partial (en : String → Bool) (lines : List Line) (raw : List Raw)
+    (st : St) (hrun : run en lines {} raw = some st) (hwf : RawWF lines raw = true)
+    (hD : D11_lineOneWrap en lines raw = false) (hu : UniqueCover en lines raw = true)
+    (p : Nat × Line) (hp : p ∈ commentLines lines) :
+    commentDiag "unused_ignore" p.1 p.2 ∈ unusedRaws lines st.used ↔
+      ∀ r ∈ nub (raw.filter (counted en)), covers lines p.1 r = false := by
+  rw [unused_pointwise en lines raw st hrun hwf hD p hp]
+  have := credited_iff_covers hu p.1
+  constructor
+  · intro h r hr
+    cases hc : covers lines p.1 r with
+    | false => rfl
+    | true =>
+      obtain ⟨r', hr', h'⟩ := this.mpr ⟨r, hr, hc⟩
+      exact absurd h' (h r' hr')
+  · intro h r hr e
+    obtain ⟨r', hr', h'⟩ := this.mp ⟨r, hr, e⟩
+    rw [h r' hr'] at h'
+    cases h'
+
 /-- In the exception class the statement fails: the last-line comment of `wrapLines` suppressed the
 line-1 diagnostic and is reported unused. -/
 theorem unused_wrap_witness :
@@ -255,10 +306,18 @@ example : (exLines.take 0).all (fun l => l.head? == some '#') = true := by decid
 example : D11_lineOneWrap allOn ["# static analysis: ignore[x]".toList, "y = 1  # static analysis: ignore".toList] [] = false ∧
     (check allOn ["# static analysis: ignore[x]".toList, "y = 1  # static analysis: ignore".toList] []).map
       (·.fails.length) = some 3 := by decide
+-- a source with \r\n and \r line ends, a comment and a diagnostic: outside both classes
+example : D11_splitlinesMismatch "x = y  # static analysis: ignore\r\nz = 1\rw = 2\n".toList = false ∧
+    (tokLines "x = y  # static analysis: ignore\r\nz = 1\rw = 2\n".toList).length = 3 := by decide
+-- a used and an unused comment in one file, no overlap
+example : UniqueCover allOn
+    ["y = 1  # static analysis: ignore[a]".toList, "# static analysis: ignore[b]".toList, "z = 2".toList]
+    [{ node := .ast 0, code := some "a", pos := some (1, 0) }, { node := .ast 1, code := some "a", pos := some (3, 0) }] = true := by
+  decide
 -- the hypothesis of `disable_is_projection_check_partial` in its three forms
 example : (!allOn "unused_ignore" || ["unused_ignore"].contains "unused_ignore" || NoIgnore wrapLines) = true := by decide
 example : (!allOn "unused_ignore" || ["undefined_name"].contains "unused_ignore" || NoIgnore exLines) = true := by decide
 example : ∀ y ∈ ([{ name := "undefined_name", value := true, applicableTo := ["pkg"] }] : List Inst),
     y.name = "undefined_name" → y.fromCmd = false := by decide
 
-end Pya
+end Pya.C11
